@@ -109,6 +109,16 @@ type c13M struct {
 	// break/continue in flight ("" = the innermost enclosing statement)
 	nextLabel string
 	brLabel   string
+	// demand-driven state tracking (c13x.go): while unkRead is non-nil, the names of the fields of
+	// the opaque object of type unkOf that were READ while unknown are recorded in it
+	unkRead map[string]bool
+	unkOf   types.Type
+}
+
+func (m *c13M) noteUnknownRead(o *c13Obj, name string) {
+	if m.unkRead != nil && o != nil && o.opaque && m.unkOf != nil && o.typ != nil && types.Identical(o.typ, m.unkOf) {
+		m.unkRead[name] = true
+	}
 }
 
 // loopCtl classifies the control outcome of one loop-body execution for the loop labelled own
@@ -330,9 +340,13 @@ func (m *c13M) fieldOf(o *c13Obj, name string, ft types.Type) c13V {
 		return c13unk("field %s of nothing", name)
 	}
 	if s := o.f[name]; s != nil {
+		if s.k == c13Unk {
+			m.noteUnknownRead(o, name)
+		}
 		return *s
 	}
 	if o.opaque {
+		m.noteUnknownRead(o, name)
 		return c13unk("field %s of the opaque object is not modelled", name)
 	}
 	return m.zero(ft)
